@@ -163,7 +163,7 @@ LIMIT = 1 << 96
 R50 = " ABCDEFGHIJKLMNOPQRSTUVWXYZ$.%0123456789"
 
 
-def ev(e, syms, dot, enc, errs=None):
+def ev(e, syms, dot, enc, errs=None, zero_drop=False):
     """enc: code point -> list of bytes or None.
     errs is None: stop at the first error (EvalError), like Spec.Arith.eval.
     errs is a list: record the error and go on with the value the code goes on with (used only to
@@ -202,14 +202,30 @@ def ev(e, syms, dot, enc, errs=None):
     if k == "dot":
         return dot
     if k == "grp":
-        return ev(e[2], syms, dot, enc, errs)
+        return ev(e[2], syms, dot, enc, errs, zero_drop)
     if k == "un":
-        a = ev(e[2], syms, dot, enc, errs)
+        a = ev(e[2], syms, dot, enc, errs, zero_drop)
         return {"UPlus": a, "UNeg": -a, "UInv": -a - 1, "UCompl": -a - 1}[e[1]]
     if k == "bin":
         o = e[1]
-        a = ev(e[2], syms, dot, enc, errs)
-        b = ev(e[3], syms, dot, enc, errs)
+        if zero_drop and o == "BMul" and errs is None:
+            # known finding 'error-in-term-multiplied-by-zero-unreported': a factor that evaluates to 0 without
+            # any error makes the product 0 whatever the other factor reports
+            vals, exc = [], None
+            for sub in (e[2], e[3]):
+                try:
+                    vals.append(ev(sub, syms, dot, enc, None, True))
+                except EvalError as ex:
+                    vals.append(None)
+                    exc = exc or ex
+            if exc is not None:
+                if any(v == 0 for v in vals if v is not None):
+                    return 0
+                raise exc
+            a, b = vals
+        else:
+            a = ev(e[2], syms, dot, enc, errs, zero_drop)
+            b = ev(e[3], syms, dot, enc, errs, zero_drop)
         if o in ("BDiv", "BMod"):
             if b == 0:
                 return fail("arithmetic-error", 0)
@@ -257,6 +273,24 @@ def ev(e, syms, dot, enc, errs=None):
             raise TooBig()
         return v
     raise ValueError(e)
+
+
+def zero_drop_value(e, syms, dot, enc):
+    """The structural test for the known finding: the Spec's outcome is an error, and every diagnostic arises inside a
+    factor of a product whose other factor evaluates, error-free, to 0.  Returns the value (mod 2^32) the expression has
+    when such products are taken as 0, or None when the shape is not that."""
+    try:
+        ev(e, syms, dot, enc)
+        return None                      # no error at all: not this finding
+    except EvalError:
+        pass
+    except TooBig:
+        return None
+    try:
+        v = ev(e, syms, dot, enc, None, True)
+    except (EvalError, TooBig):
+        return None                      # some diagnostic is outside every product with a zero factor
+    return v % TWO32 if -TWO32 < v < TWO32 else None
 
 
 def small_enough(e, syms, dot, enc):
